@@ -1,6 +1,7 @@
 package main
 
 import (
+	"sort"
 	"fmt"
 	"os"
 	"go/types"
@@ -299,7 +300,13 @@ func (e *Exec) checkFrame(st *State, fr *Frame) {
 	if _, all := declared["*"]; all {
 		return
 	}
-	for name, cur := range st.heaps {
+	var heapNames []string
+	for name := range st.heaps {
+		heapNames = append(heapNames, name)
+	}
+	sort.Strings(heapNames)
+	for _, name := range heapNames {
+		cur := st.heaps[name]
 		if _, ok := declared[name]; ok || name == "*havoc*" || strings.HasPrefix(name, "G!") {
 			continue
 		}
